@@ -71,8 +71,32 @@ def subst_parts(parts, mapping):
         if p[0] == "lit":
             out.append(p)
         else:
-            out.append(("hole", og.nf_subst(p[1], mapping)) + tuple(p[2:]))
+            out.append(("hole", flatten_format(og.nf_subst(p[1], mapping))) + tuple(p[2:]))
     return tuple(out)
+
+
+def flatten_format(nf):
+    """format!("{}X", format!("{}Y", a)) == format!("{}YX", a): splice Display holes that are themselves formats."""
+    if not isinstance(nf, tuple) or nf[0] != "format":
+        return nf
+    parts = []
+    for p in nf[1]:
+        if p[0] == "hole":
+            inner = flatten_format(p[1])
+            if inner[0] == "format" and p[2] == "display":
+                parts.extend(inner[1])
+                continue
+            parts.append(("hole", inner) + tuple(p[2:]))
+        else:
+            parts.append(p)
+    # merge adjacent literals
+    merged = []
+    for p in parts:
+        if p[0] == "lit" and merged and merged[-1][0] == "lit":
+            merged[-1] = ("lit", merged[-1][1] + p[1])
+        else:
+            merged.append(p)
+    return ("format", tuple(merged))
 
 
 def subst_ctx(ctx, mapping):
